@@ -20,7 +20,7 @@ RULE = ('seeded random (F, Q, dt): n 1..24 (mpmath subset n<=12 in quick), F sta
         ' Round 4: Q magnitudes 1e-26..1e-9 (navigation-grade densities) and 1e4..1e12; at the end of every case the caller overwrites every matrix it was handed back (shared constant matrices of a zero-step / zero-noise shortcut reach the next call).')
 ASSUMPTIONS = ['mpmath Taylor expm at 50 digits is exact relative to float64',
                'rounding bound kappa = exp(|F|_2 dt) * (1+|F|dt)  (conditioning of the block exponential)']
-REQUIRED_OBS = ['returned_arrays_overwritten', 'float_route_compared', 'in_place_updates_between_calls', 'integer_typed_inputs', 'post_checked', 'mp_compared', 'composition_checked', 'zero_step_checked', 'ambient_calls_checked']
+REQUIRED_OBS = ['scale_invariance_checked', 'returned_arrays_overwritten', 'float_route_compared', 'in_place_updates_between_calls', 'integer_typed_inputs', 'post_checked', 'mp_compared', 'composition_checked', 'zero_step_checked', 'ambient_calls_checked']
 REQUIRED_CLASSES = {'all': ['stable', 'unstable', 'nilpotent', 'triangular', 'diagonal', 'zero', 'random', 'singularQ', 'dt0', 'integer', 'ambient']}
 EPS = np.finfo(float).eps
 C_PHI = 5e4   # scipy 1.18 expm is only ~1e-12 relative on small blocks (measured: 620 eps)
@@ -216,6 +216,9 @@ def cases(seed, tier):
             out.append(dict(seed=int(seed) * 1000003 + i, cls=classes[i % 10], mp=True, nmax=24, cost=8))
         for i in range(2100, 30000):
             out.append(dict(seed=int(seed) * 1000003 + i, cls=classes[i % 10], mp=False, nmax=24, cost=1))
+    # directed: the system on which the unnormalised Van Loan exponential lost the 4th digit of Qd (thorough seed 47; nilpotent n = 4, |F| dt = 4.6,
+    # |Q| = 1.8e-19) - repaired in the repository, kept as a regression case in both tiers
+    out.append(dict(seed=47009733, cls='nilpotent', mp=False, nmax=24, cost=1))
     # ambient: the contract stays on compute_process_matrices while the real filters run (the F, G q^2 G^T they assemble)
     na = 12 if tier == 'quick' else 200
     out += [dict(seed=int(seed) * 1000003 + 800000 + i, cls='ambient', cost=30) for i in range(na)]
@@ -283,6 +286,21 @@ def run_case(case):
     except Exception as e:
         return dict(violations=[vio('exception', f'{type(e).__name__}: {e}')], obs=obs)
     out = list(PENDING)
+    # Qd is linear in Q: the same system with Q scaled by an exact power of two to unit size must give the same Qd (scaled back) to rounding -
+    # whatever the magnitude of Q (1e-26 .. 1e12 here)
+    qmax = float(np.abs(np.asarray(Q, float)).max())
+    if qmax > 0 and float(dt) > 0:
+        c2 = 2.0 ** (-int(np.floor(np.log2(qmax))))
+        LAST['use_mp'] = False
+        PENDING.clear()
+        Qd_n = kalman.compute_process_matrices(F, np.asarray(Q, float) * c2, dt)[1] / c2
+        PENDING.clear()
+        obs['scale_invariance_checked'] = obs.get('scale_invariance_checked', 0) + 1
+        dq = float(np.abs(Qd_n - Qd).max())
+        tolq = max(1e-9 * float(np.abs(Qd_n).max()), bounds(np.asarray(F, float), np.asarray(Q, float), float(dt))[1])
+        if not dq <= tolq:
+            out.append(vio('noise_scale_invariance', f'Qd for |Q| = {qmax:.2e} differs from the same system with Q scaled to unit size (and Qd scaled back) by {dq:.3e} '
+                           f'({dq / max(float(np.abs(Qd_n).max()), 1e-300):.2e} of Qd; allowed {tolq:.2e}): the discretisation is not linear in Q at this magnitude'))
     # composition over a partition of dt (each sub-call is monitored too, float route only)
     LAST['use_mp'] = False
     PENDING.clear()
